@@ -486,6 +486,24 @@ pub struct Checked {
 pub const MODEL_FUEL: u64 = 20_000;
 pub const TICK_FUEL: u64 = 4 * MODEL_FUEL + 2_000;
 
+thread_local! {
+    static FUEL_SCALE: std::cell::Cell<u64> = const { std::cell::Cell::new(1) };
+}
+
+/// Multiply the logical fuel (model instructions, run-loop iterations) of the sessions verified on
+/// this case thread: for the few programs that run for more than 2^16 instructions on purpose.
+pub fn case_fuel_scale(k: u64) {
+    FUEL_SCALE.with(|c| c.set(k.max(1)));
+}
+
+fn model_fuel() -> u64 {
+    MODEL_FUEL * FUEL_SCALE.with(|c| c.get())
+}
+
+fn tick_fuel() -> u64 {
+    4 * model_fuel() + 2_000
+}
+
 /// Render the script with per-command spelling variety.
 pub fn script_lines(cmds: &[Cmd], salt: u64) -> Vec<String> {
     cmds.iter()
@@ -523,7 +541,7 @@ pub fn run_and_verify(
     } else {
         lines.join(sep)
     };
-    let sess = match run_session(text, stack, &script, input, TICK_FUEL, keep_trace) {
+    let sess = match run_session(text, stack, &script, input, tick_fuel(), keep_trace) {
         Ok(s) => s,
         Err(o) => {
             out.inconclusive = Some(format!("program for the session not assembled ({})", o.class()));
@@ -572,7 +590,7 @@ pub fn run_and_verify(
     let mut result = None;
     let mut first: Option<Mismatch> = None;
     for v in [0, variant::TRAP_R7, variant::NONASCII_RAW, variant::TRAP_R7 | variant::NONASCII_RAW] {
-        match verify(&sess, &raw, breaks, stack, cmds, input, MODEL_FUEL, v) {
+        match verify(&sess, &raw, breaks, stack, cmds, input, model_fuel(), v) {
             Ok(stats) => {
                 result = Some(stats);
                 break;
@@ -600,7 +618,7 @@ pub fn run_and_verify(
             let what = if spun {
                 format!(
                     "run loop used up its {} iterations ({} instructions executed, {} commands read): {}",
-                    TICK_FUEL,
+                    tick_fuel(),
                     sess.obs.fetches,
                     sess.obs.commands.len(),
                     m.what
